@@ -168,10 +168,12 @@ fn dump_level(p: &mut Parser, o: &mut String, depth: usize, st: &mut TreeStats) 
     }
     loop {
         let (l, c) = pos(p);
+        let start = p.position();
         let tok = match p.next_including_whitespace_and_comments() {
             Ok(t) => t.clone(),
             Err(_) => break,
         };
+        let src = q(numeric_prefix(p.slice_from(start)));
         st.n_tokens += 1;
         *st.kinds.entry(kind_name(&tok)).or_insert(0) += 1;
         o.push(' ');
@@ -184,11 +186,11 @@ fn dump_level(p: &mut Parser, o: &mut String, depth: usize, st: &mut TreeStats) 
             Token::UnquotedUrl(s) => o.push_str(&format!("(u {} {} {})", l, c, q(s))),
             Token::Delim(ch) => o.push_str(&format!("(d {} {} {})", l, c, *ch as u32)),
             Token::Number { has_sign, value, int_value } => o.push_str(&format!(
-                "(n {} {} {} {} {})", l, c, *has_sign as u8, int_s(int_value), value.to_bits())),
+                "(n {} {} {} {} {} {})", l, c, *has_sign as u8, int_s(int_value), value.to_bits(), src)),
             Token::Percentage { has_sign, unit_value, int_value } => o.push_str(&format!(
-                "(pc {} {} {} {} {})", l, c, *has_sign as u8, int_s(int_value), unit_value.to_bits())),
+                "(pc {} {} {} {} {} {})", l, c, *has_sign as u8, int_s(int_value), unit_value.to_bits(), src)),
             Token::Dimension { has_sign, value, int_value, unit } => o.push_str(&format!(
-                "(dim {} {} {} {} {} {})", l, c, *has_sign as u8, int_s(int_value), value.to_bits(), q(unit))),
+                "(dim {} {} {} {} {} {} {})", l, c, *has_sign as u8, int_s(int_value), value.to_bits(), src, q(unit))),
             Token::WhiteSpace(s) => o.push_str(&format!("(w {} {} {})", l, c, q(s))),
             Token::Comment(s) => o.push_str(&format!("(c {} {} {})", l, c, q(s))),
             Token::Colon => o.push_str(&format!("(col {} {})", l, c)),
@@ -220,8 +222,10 @@ fn dump_level(p: &mut Parser, o: &mut String, depth: usize, st: &mut TreeStats) 
                     endp = pos(n);
                     Ok(())
                 });
+                // closed iff the outer parser moved past a closing bracket after the body
+                let closed = pos(p) != endp;
                 o.push_str(&head);
-                o.push_str(&format!(" {} {}", endp.0, endp.1));
+                o.push_str(&format!(" {} {} {}", endp.0, endp.1, closed as u8));
                 o.push_str(&body);
                 o.push(')');
             }
@@ -271,6 +275,90 @@ fn numeric_prefix(s: &str) -> &str {
         }
     }
     &s[..i]
+}
+
+fn canon(tok: &Token, slice: &str) -> String {
+    match tok {
+        Token::Ident(s) => format!("(i {})", q(s)),
+        Token::AtKeyword(s) => format!("(at {})", q(s)),
+        Token::Hash(s) => format!("(h {})", q(s)),
+        Token::IDHash(s) => format!("(idh {})", q(s)),
+        Token::QuotedString(s) => format!("(s {})", q(s)),
+        Token::UnquotedUrl(s) => format!("(u {})", q(s)),
+        Token::Delim(ch) => format!("(d {})", *ch as u32),
+        Token::Number { .. } => format!("(n {})", q(numeric_prefix(slice))),
+        Token::Percentage { .. } => format!("(pc {})", q(numeric_prefix(slice))),
+        Token::Dimension { unit, .. } => format!("(dim {} {})", q(numeric_prefix(slice)), q(unit)),
+        Token::WhiteSpace(_) => "w".to_string(),
+        Token::Comment(s) => format!("(c {})", q(s)),
+        Token::Colon => "col".into(),
+        Token::Semicolon => "semi".into(),
+        Token::Comma => "com".into(),
+        Token::IncludeMatch => "inc".into(),
+        Token::DashMatch => "dash".into(),
+        Token::PrefixMatch => "pre".into(),
+        Token::SuffixMatch => "suf".into(),
+        Token::SubstringMatch => "sub".into(),
+        Token::CDO => "cdo".into(),
+        Token::CDC => "cdc".into(),
+        Token::BadUrl(s) => format!("(bu {})", q(s)),
+        Token::BadString(s) => format!("(bs {})", q(s)),
+        Token::CloseParenthesis => "cp".into(),
+        Token::CloseSquareBracket => "cs".into(),
+        Token::CloseCurlyBracket => "cc".into(),
+        Token::Function(s) => format!("(F {})", q(s)),
+        Token::ParenthesisBlock => "P".into(),
+        Token::SquareBracketBlock => "S".into(),
+        Token::CurlyBracketBlock => "C".into(),
+    }
+}
+
+/// byte offset of (line, utf16 column) using cssparser's notion of a line break
+fn offset_of(text: &str, line: u32, col: u32) -> Option<usize> {
+    let b = text.as_bytes();
+    let mut l = 0u32;
+    let mut i = 0usize;
+    while l < line {
+        if i >= b.len() {
+            return None;
+        }
+        match b[i] {
+            b'\n' | 0x0c => {
+                l += 1;
+                i += 1;
+            }
+            b'\r' => {
+                l += 1;
+                i += 1;
+                if i < b.len() && b[i] == b'\n' {
+                    i += 1;
+                }
+            }
+            _ => i += 1,
+        }
+    }
+    let mut c = 0u32;
+    for ch in text[i..].chars() {
+        if c >= col {
+            break;
+        }
+        c += ch.len_utf16() as u32;
+        i += ch.len_utf8();
+    }
+    if c == col { Some(i) } else { None }
+}
+
+/// first token of `text` at (line, col): (canonical form, its to_css_string)
+fn token_at(text: &str, line: u32, col: u32) -> Option<(String, String)> {
+    use cssparser::ToCss;
+    let off = offset_of(text, line, col)?;
+    let rest = &text[off..];
+    let mut pi = ParserInput::new(rest);
+    let mut p = Parser::new(&mut pi);
+    let start = p.position();
+    let tok = p.next_including_whitespace_and_comments().ok()?.clone();
+    let slice = p.slice_from(start).to_string();
+    Some((canon(&tok, &slice), tok.to_css_string()))
 }
 
 fn retok_level(p: &mut Parser, o: &mut Vec<String>, cols: &mut Vec<(u32, u32)>) {
@@ -362,6 +450,8 @@ pub struct ImplOut {
     /// (dst_line, dst_col, src_line, src_col, name)
     pub map: [Vec<(u32, u32, u32, u32, Option<String>)>; 2],
     pub map_ok: [bool; 2],
+    /// per map entry: (source token, its canonical css text, output token) at the recorded positions
+    pub map_toks: [Vec<String>; 2],
     pub warnings: Vec<(u32, u32, u32, u32, u32)>,
 }
 
@@ -382,6 +472,7 @@ pub fn run_impl(css: &str, opts: &Opts) -> Result<ImplOut, String> {
         l.write_str(&mut text[1]).unwrap();
         let mut map = [vec![], vec![]];
         let mut map_ok = [true, true];
+        let mut map_toks = [vec![], vec![]];
         for (i, out) in [n, l].into_iter().enumerate() {
             let mut buf = Vec::new();
             out.write_source_map(&mut buf).unwrap();
@@ -391,6 +482,14 @@ pub fn run_impl(css: &str, opts: &Opts) -> Result<ImplOut, String> {
                         map[i].push((
                             tk.get_dst_line(), tk.get_dst_col(), tk.get_src_line(), tk.get_src_col(),
                             tk.get_name().map(|x| x.to_string()),
+                        ));
+                        let s = token_at(&css2, tk.get_src_line(), tk.get_src_col());
+                        let d = if tk.get_dst_line() == 0 { token_at(&text[i], 0, tk.get_dst_col()) } else { None };
+                        map_toks[i].push(format!(
+                            "{} {} {}",
+                            s.as_ref().map(|x| x.0.clone()).unwrap_or("none".into()),
+                            s.as_ref().map(|x| q(&x.1)).unwrap_or("none".into()),
+                            d.as_ref().map(|x| x.0.clone()).unwrap_or("none".into())
                         ));
                     }
                     // the map must carry the source text it was built from
@@ -403,7 +502,7 @@ pub fn run_impl(css: &str, opts: &Opts) -> Result<ImplOut, String> {
         }
         let (t0, c0) = retokenise(&text[0]);
         let (t1, c1) = retokenise(&text[1]);
-        ImplOut { text, toks: [t0, t1], tok_cols: [c0, c1], map, map_ok, warnings }
+        ImplOut { text, toks: [t0, t1], tok_cols: [c0, c1], map, map_ok, map_toks, warnings }
     })
 }
 
@@ -438,19 +537,20 @@ pub fn impl_sections(r: &Result<ImplOut, String>) -> String {
             let w: Vec<String> =
                 o.warnings.iter().map(|w| format!("({} {} {} {} {})", w.0, w.1, w.2, w.3, w.4)).collect();
             format!(
-                "({})\t{}\t{}\t({})\t{}\t{}\t({})\t{}\t{}",
+                "({})\t{}\t{}\t({})\t{}\t{}\t({})\t{}\t{}\t({})\t({})",
                 o.toks[0].join(" "), q(&o.text[0]), map_s(&o.map[0], o.map_ok[0]),
                 o.toks[1].join(" "), q(&o.text[1]), map_s(&o.map[1], o.map_ok[1]),
                 w.join(" "), cols_s(&o.tok_cols[0]), cols_s(&o.tok_cols[1]),
+                o.map_toks[0].join(" "), o.map_toks[1].join(" "),
             )
         }
     }
 }
 
-pub fn emit_case(out: &mut Out, css: &str, opts: &Opts) -> TreeStats {
+pub fn emit_case(out: &mut Out, css: &str, opts: &Opts, cat: &str) -> TreeStats {
     let (tree, st) = dump_tree(css);
     let r = run_impl(css, opts);
-    out.case(&["css", &opts.sexp(), &tree, &q(css)], &impl_sections(&r));
+    out.case(&["css", &opts.sexp(), &tree, &q(css), cat], &impl_sections(&r));
     st
 }
 
@@ -466,8 +566,887 @@ pub fn run_one(out: &mut Out) {
         let v: serde_json::Value = serde_json::from_str(&line).expect("json");
         let css = v.get("css").and_then(|x| x.as_str()).unwrap_or("").to_string();
         let opts = Opts::from_json(v.get("opts").unwrap_or(&serde_json::Value::Null));
-        emit_case(out, &css, &opts);
+        emit_case(out, &css, &opts, "one");
     }
 }
 
-pub fn run(_tier: &str, _seed: u64, _out: &mut Out) {}
+// ------------------------------------------------------------------------------------------
+// generators: structured, mostly valid stylesheets from a CSS grammar
+
+pub struct Gen<'a> {
+    pub rng: &'a mut Rng,
+    pub at_rules: std::collections::BTreeMap<String, u64>,
+    pub feats: std::collections::BTreeMap<&'static str, u64>,
+    /// probability (per 100) of a comment where whitespace/nothing is allowed
+    pub comment_pct: u64,
+    pub multiline: bool,
+    pub host_pct: u64,
+    pub rpx_pct: u64,
+    /// clean sheets avoid the constructs of the known-finding classes (so that the rest can be
+    /// checked against the specification); spicy sheets use the whole grammar
+    pub clean: bool,
+}
+
+const IDENTS: &[&str] = &[
+    "a", "b", "c", "foo", "bar-baz", "_x", "-y", "B", "h1", "div", "x1", "\u{e9}t\u{e9}", "\u{540d}", "\u{1f600}k",
+    "a\\:b", "\\31 0", "q\\ r", "host", "calc", "rpx", "not", "e", "E",
+];
+const PROPS: &[&str] = &[
+    "color", "width", "margin", "padding", "z-index", "font", "background", "--v", "--main-color", "transform",
+    "grid-area", "content", "line-height", "unicode-range", "src", "animation", "--\u{e9}",
+];
+const UNITS: &[&str] = &["px", "rpx", "rpx", "em", "rem", "vw", "s", "deg", "e", "E", "e-x", "RPX", "x", "fr", "\u{b5}m", "--u"];
+const PSEUDO_FN: &[&str] = &["not", "is", "where", "has", "host", "slotted", "nth-child", "nth-last-child", "host-context", "matches"];
+const PSEUDO: &[&str] = &["hover", "first-child", "root", "host", "before", "focus-within"];
+const VAL_FN: &[&str] = &["calc", "calc", "var", "min", "max", "clamp", "rgb", "translate", "url", "f", "env", "attr", "CALC"];
+
+fn unesc(s: &str) -> String {
+    // the tables above write non-ASCII as \u{..} and CSS backslashes as \\ to stay readable
+    let mut o = String::new();
+    let cs: Vec<char> = s.chars().collect();
+    let mut i = 0;
+    while i < cs.len() {
+        if cs[i] == '\\' && i + 1 < cs.len() && cs[i + 1] == 'u' && i + 2 < cs.len() && cs[i + 2] == '{' {
+            let mut j = i + 3;
+            let mut h = String::new();
+            while cs[j] != '}' {
+                h.push(cs[j]);
+                j += 1;
+            }
+            o.push(char::from_u32(u32::from_str_radix(&h, 16).unwrap()).unwrap());
+            i = j + 1;
+        } else {
+            o.push(cs[i]);
+            i += 1;
+        }
+    }
+    o
+}
+
+impl<'a> Gen<'a> {
+    pub fn new(rng: &'a mut Rng) -> Self {
+        Gen { rng, at_rules: Default::default(), feats: Default::default(), comment_pct: 6, multiline: true, host_pct: 12, rpx_pct: 30, clean: false }
+    }
+    pub fn pk(&mut self, v: &[&'static str]) -> &'static str {
+        v[self.rng.below(v.len())]
+    }
+    fn feat(&mut self, f: &'static str) {
+        *self.feats.entry(f).or_insert(0) += 1;
+    }
+    fn ident(&mut self) -> String {
+        unesc(self.pk(IDENTS))
+    }
+    fn comment(&mut self) -> String {
+        let c = ["/**/", "/* c */", "/*x*y*/", "/* \n */", "/*\u{e9}*/", "/*{*/", "/*;*/"];
+        self.feat("comment");
+        unesc(self.pk(&c)).replace("\\n", "\n")
+    }
+    /// optional whitespace (may be empty, may contain a comment)
+    fn ows(&mut self) -> String {
+        let mut s = String::new();
+        if self.rng.chance(self.comment_pct, 100) {
+            s.push_str(&self.comment());
+        }
+        match self.rng.below(10) {
+            0..=4 => {}
+            5..=7 => s.push(' '),
+            8 => s.push_str(if self.multiline { "\n  " } else { "  " }),
+            _ => s.push_str(if self.multiline { "\r\n\t" } else { "\t" }),
+        }
+        if self.rng.chance(self.comment_pct / 2, 100) {
+            s.push_str(&self.comment());
+        }
+        s
+    }
+    /// mandatory whitespace
+    fn ws(&mut self) -> String {
+        let mut s = String::new();
+        match self.rng.below(10) {
+            0..=6 => s.push(' '),
+            7 => s.push_str("  "),
+            8 => s.push_str(if self.multiline { "\n" } else { " " }),
+            _ => s.push_str(if self.multiline { " \n\t " } else { "\t" }),
+        }
+        if self.rng.chance(self.comment_pct, 100) {
+            s.push_str(&self.comment());
+            if self.rng.chance(1, 2) {
+                s.push(' ');
+            }
+        }
+        s
+    }
+    pub fn number(&mut self) -> String {
+        self.feat("number");
+        match self.rng.below(16) {
+            0 => self.rng.below(10).to_string(),
+            1 => self.rng.below(1000).to_string(),
+            2 => format!("{}.{}", self.rng.below(100), self.rng.below(1000)),
+            3 => format!(".{}", self.rng.below(100)),
+            4 => format!("-{}", self.rng.below(500)),
+            5 => format!("+{}", self.rng.below(500)),
+            6 => {
+                let pool = ["0", "-0", "+0", "0.0", "-0.0", "1", "100", "750", "7.5", "0.5", "1e3", "1E-3", "2.5e+2", "1e0", "-1.5e-7", "3e38", "1e-45"];
+                self.rng.pick(&pool).to_string()
+            }
+            7 => {
+                // i32 boundaries and powers of ten +- 1
+                let pool: [i64; 20] = [
+                    2147483647, -2147483648, 2147483646, 2147483648, 16777216, 16777217, 16777215, 999999, 1000000,
+                    1000001, 9999999, 10000000, 99999, 100000, 123456, 1234567, 123456789, 4294967295, -999999, -1000001,
+                ];
+                self.rng.pick(&pool).to_string()
+            }
+            8 => {
+                // random integer over the whole i32 range (log-uniform magnitude)
+                let bits = 1 + self.rng.below(31);
+                let v = (self.rng.next() & ((1u64 << bits) - 1)) as i64;
+                if self.rng.chance(1, 4) { (-v).to_string() } else { v.to_string() }
+            }
+            9 => {
+                let k = self.rng.below(10) as u32;
+                let p = 10i64.pow(k);
+                let d = [-1i64, 0, 1][self.rng.below(3)];
+                (p + d).to_string()
+            }
+            10 => {
+                // decimals with many digits
+                let a = self.rng.below(100000);
+                let b = self.rng.next() % 1000000000;
+                format!("{}.{:09}", a, b)
+            }
+            11 => format!("{}e{}", self.rng.below(99) + 1, self.rng.below(12)),
+            12 => format!("{}.{}e-{}", self.rng.below(9), self.rng.below(99), self.rng.below(12)),
+            13 => format!("0.{:06}", self.rng.below(1000000)),
+            14 => format!("{}", (self.rng.below(4000) as f64) / 8.0),
+            _ => format!("{}", self.rng.below(100000)),
+        }
+    }
+    fn dimension(&mut self) -> String {
+        let n = self.number();
+        let u = if self.rng.chance(self.rpx_pct, 100) { "rpx".to_string() } else { unesc(self.pk(UNITS)) };
+        if u == "rpx" {
+            self.feat("rpx");
+        }
+        // a number ending in e<digits> followed by a unit would re-lex; that is fine (still valid input)
+        format!("{}{}", n, u)
+    }
+    fn string(&mut self) -> String {
+        let pool = ["\"a\"", "'b c'", "\"\"", "\"q\\\\\\\"x\"", "'\u{e9}\u{1f600}'", "\"a\\\nb\"", "\"*/\"", "'{'", "\"\\41 b\"", "'it\\'s'"];
+        self.feat("string");
+        self.pk(&pool).to_string()
+    }
+
+    // ---- selectors ----
+    fn simple_selector(&mut self, depth: usize) -> String {
+        match self.rng.below(14) {
+            0..=4 => {
+                self.feat("class-selector");
+                let mut s = format!(".{}", self.ident());
+                if self.rng.chance(1, 25) {
+                    s = format!("./**/{}", self.ident());
+                }
+                s
+            }
+            5 => format!("#{}", self.ident()),
+            6 => {
+                self.feat("attr-selector");
+                let ops = ["=", "~=", "|=", "^=", "$=", "*="];
+                match self.rng.below(4) {
+                    0 => format!("[{}]", self.ident()),
+                    1 => format!("[{}{}{}]", self.ident(), self.rng.pick(&ops), self.string()),
+                    2 => format!("[{}{}{}{}i]", self.ident(), self.rng.pick(&ops), self.ident(), self.ws()),
+                    _ => format!("[{}{}{}.{}]", self.ows(), self.ident(), self.rng.pick(&ops), self.ident()),
+                }
+            }
+            7 => format!(":{}", self.rng.pick(PSEUDO)),
+            8 => format!("::{}", self.rng.pick(PSEUDO)),
+            9..=11 if depth < 3 && !(self.clean && depth >= 1) => {
+                self.feat(["selector-fn-depth1", "selector-fn-depth2", "selector-fn-depth3"][depth]);
+                let f = *self.rng.pick(PSEUDO_FN);
+                if f.starts_with("nth") {
+                    let anb = ["2n+1", "odd", "even", "-n+3", "3", "2n + 1", "n", "+5", "-2n-1"];
+                    if self.rng.chance(1, 2) {
+                        format!(":{}({}{}of{}{})", f, self.rng.pick(&anb), self.ws(), self.ws(), self.selector_list(depth + 1))
+                    } else {
+                        format!(":{}({})", f, self.rng.pick(&anb))
+                    }
+                } else {
+                    format!(":{}({}{}{})", f, self.ows(), self.selector_list(depth + 1), self.ows())
+                }
+            }
+            12 => "*".to_string(),
+            _ => self.ident(),
+        }
+    }
+    fn compound(&mut self, depth: usize) -> String {
+        let mut s = String::new();
+        if self.rng.chance(1, 3) {
+            s.push_str(&self.ident());
+        }
+        let n = 1 + self.rng.below(3);
+        for _ in 0..n {
+            let x = self.simple_selector(depth);
+            // a type selector can only come first
+            if !s.is_empty() && x.chars().next().map_or(false, |c| c.is_alphanumeric() || c == '_' || c == '-' || c == '\\' || c as u32 > 127) {
+                continue;
+            }
+            s.push_str(&x);
+        }
+        if s.is_empty() {
+            s = format!(".{}", self.ident());
+        }
+        s
+    }
+    fn complex(&mut self, depth: usize) -> String {
+        let mut s = self.compound(depth);
+        let n = self.rng.below(3);
+        for _ in 0..n {
+            let comb = match self.rng.below(8) {
+                0..=3 => {
+                    self.feat("descendant-combinator");
+                    self.ws()
+                }
+                4 => ">".to_string(),
+                5 => format!("{}>{}", self.ws(), self.ws()),
+                6 => format!("{}+{}", self.ows(), self.ows()),
+                _ => format!("{}~{}", self.ws(), self.ows()),
+            };
+            s.push_str(&comb);
+            s.push_str(&self.compound(depth));
+        }
+        s
+    }
+    fn selector_list(&mut self, depth: usize) -> String {
+        let mut s = self.complex(depth);
+        while self.rng.chance(1, 4) {
+            s.push_str(&format!("{},{}", self.ows(), self.ows()));
+            s.push_str(&self.complex(depth));
+        }
+        s
+    }
+
+    // ---- values ----
+    fn value_component(&mut self, depth: usize) -> String {
+        match self.rng.below(22) {
+            0..=2 => self.ident(),
+            3..=5 => self.dimension(),
+            6 => self.number(),
+            7 => format!("{}%", self.number()),
+            8 => self.string(),
+            9 => {
+                self.feat("hash");
+                let h = ["#fff", "#00ff00", "#0a0b0c80", "#1e3", "#abc", "#123456", "#e0e"];
+                self.rng.pick(&h).to_string()
+            }
+            10 => {
+                self.feat("url");
+                let u = ["url(a.png)", "url( b.png )", "url(\"c d.png\")", "url(data:image/png;base64,AAAA==)", "url()", "url(a\\)b)"];
+                unesc(self.pk(&u))
+            }
+            11..=13 if depth < 3 => {
+                let mut f = *self.rng.pick(VAL_FN);
+                if self.clean && (f == "min" || f == "max" || f == "clamp" || f == "CALC") {
+                    f = "calc";
+                }
+                if f == "url" {
+                    return format!("url({})", self.string());
+                }
+                if f == "calc" || f == "min" || f == "max" || f == "clamp" || f == "CALC" {
+                    self.feat(if f == "calc" { "calc" } else { "math-fn" });
+                    format!("{}({}{}{})", f, self.ows(), self.calc_sum(depth + 1), self.ows())
+                } else if f == "var" || f == "env" {
+                    if self.rng.chance(1, 2) {
+                        format!("{}(--{})", f, self.ident())
+                    } else {
+                        format!("{}(--{},{}{})", f, self.ident(), self.ows(), self.value(depth + 1))
+                    }
+                } else {
+                    let mut a = self.value(depth + 1);
+                    while self.rng.chance(1, 2) {
+                        a.push_str(&format!("{},{}", self.ows(), self.ows()));
+                        a.push_str(&self.value(depth + 1));
+                    }
+                    format!("{}({})", f, a)
+                }
+            }
+            14 if !self.clean => {
+                self.feat("unicode-range");
+                let u = ["U+0025-00FF", "u+4??", "U+26", "U+0-7F", "u+1f600-1f64f"];
+                self.rng.pick(&u).to_string()
+            }
+            15 => format!("{}.{}", self.ident(), self.ident()),
+            16 => "!important".to_string(),
+            17 if depth < 3 => {
+                self.feat("nested-block-in-value");
+                match self.rng.below(3) {
+                    0 => format!("({})", self.value(depth + 1)),
+                    1 => format!("[{}]", self.value(depth + 1)),
+                    _ => format!("{{{}}}", self.value(depth + 1)),
+                }
+            }
+            18 => {
+                let d = ["/", "*", "+", "-", ">", "<", "=", "~", "|", "^", "$", "?", "@", "&", ".", "%", "!"];
+                self.feat("delim");
+                self.rng.pick(&d).to_string()
+            }
+            19 => {
+                let m = ["~=", "|=", "^=", "$=", "*=", "||"];
+                self.feat("match-or-cd-token");
+                self.rng.pick(&m).to_string()
+            }
+            20 => format!("-{}", self.ident()),
+            _ => format!(".{}", self.rng.below(100)),
+        }
+    }
+    fn calc_sum(&mut self, depth: usize) -> String {
+        let mut s = self.calc_term(depth);
+        let n = self.rng.below(3);
+        for _ in 0..n {
+            let op = if self.rng.chance(1, 2) { "+" } else { "-" };
+            s.push_str(&format!("{}{}{}", self.ws(), op, self.ws()));
+            s.push_str(&self.calc_term(depth));
+        }
+        s
+    }
+    fn calc_term(&mut self, depth: usize) -> String {
+        let mut s = self.calc_atom(depth);
+        if self.rng.chance(1, 3) {
+            let op = if self.rng.chance(1, 2) { "*" } else { "/" };
+            s.push_str(&format!("{}{}{}{}", self.ows(), op, self.ows(), self.number()));
+        }
+        s
+    }
+    fn calc_atom(&mut self, depth: usize) -> String {
+        match self.rng.below(8) {
+            0..=3 => self.dimension(),
+            4 => format!("{}%", self.number()),
+            5 if depth < 3 && !self.clean => {
+                self.feat("nested-paren-in-calc");
+                format!("({}{}{})", self.ows(), self.calc_sum(depth + 1), self.ows())
+            }
+            6 if depth < 3 => {
+                let f = ["calc", "min", "max", "var"];
+                let mut f = *self.rng.pick(&f);
+                if self.clean && f != "var" {
+                    f = "calc";
+                }
+                if f == "var" { format!("var(--{})", self.ident()) } else { format!("{}({})", f, self.calc_sum(depth + 1)) }
+            }
+            _ => self.number(),
+        }
+    }
+    fn value(&mut self, depth: usize) -> String {
+        let mut s = self.value_component(depth);
+        let n = self.rng.below(4);
+        for _ in 0..n {
+            let sep = match self.rng.below(10) {
+                0..=6 => self.ws(),
+                7 => format!("{},{}", self.ows(), self.ows()),
+                8 => format!("{}/{}", self.ows(), self.ows()),
+                _ => String::new(),
+            };
+            s.push_str(&sep);
+            s.push_str(&self.value_component(depth));
+        }
+        s
+    }
+    fn declarations(&mut self) -> String {
+        let mut s = self.ows();
+        let n = self.rng.below(4);
+        for i in 0..n {
+            let p = unesc(self.pk(PROPS));
+            s.push_str(&format!("{}{}:{}{}", p, self.ows(), self.ows(), self.value(0)));
+            if i + 1 < n || self.rng.chance(2, 3) {
+                s.push(';');
+            }
+            s.push_str(&self.ows());
+        }
+        s
+    }
+
+    // ---- rules ----
+    fn qualified_rule(&mut self) -> String {
+        self.feat("qualified-rule");
+        format!("{}{}{{{}}}", self.selector_list(0), self.ows(), self.declarations())
+    }
+    fn host_rule(&mut self) -> String {
+        match self.rng.below(12) {
+            0..=6 => {
+                self.feat("host-pure");
+                format!(":host{}{{{}}}", self.ows(), self.declarations())
+            }
+            7 => {
+                self.feat("host-function");
+                format!(":host({}){}{{{}}}", self.selector_list(1), self.ows(), self.declarations())
+            }
+            8 => {
+                self.feat("host-combined");
+                format!(":host{}{}{{{}}}", self.ws(), self.complex(0), self.declarations())
+            }
+            9 => {
+                self.feat("host-combined");
+                format!(":host{},{}{}{{{}}}", self.ows(), self.ows(), self.complex(0), self.declarations())
+            }
+            10 => {
+                self.feat("host-not-first");
+                format!("{}{}:host{{{}}}", self.compound(0), self.ws(), self.declarations())
+            }
+            _ if !self.clean => {
+                self.feat("host-spaced");
+                format!(":{}host{}{{{}}}", self.comment(), self.ows(), self.declarations())
+            }
+            _ => {
+                self.feat("host-pure");
+                format!(":host{{{}}}", self.declarations())
+            }
+        }
+    }
+    fn at_rule(&mut self, depth: usize) -> String {
+        let mut k = self.rng.below(16);
+        if self.clean && [2usize, 3, 4, 7, 13, 15].contains(&k) {
+            k = [0usize, 1, 5, 6, 10, 12][self.rng.below(6)];
+        }
+        let name = ["media", "supports", "layer", "container", "scope", "keyframes", "font-face", "layer", "charset", "namespace", "document", "page", "foo", "MEDIA", "property", "starting-style"][k];
+        *self.at_rules.entry(name.to_string()).or_insert(0) += 1;
+        match name {
+            "media" | "MEDIA" => {
+                let q = match self.rng.below(6) {
+                    0 => format!("(min-width:{}{})", self.ows(), self.dimension()),
+                    1 => format!("screen{}and{}(max-width: {})", self.ws(), self.ws(), self.dimension()),
+                    2 => "print".to_string(),
+                    3 => format!("(width >= {}){}and{}(orientation: landscape)", self.dimension(), self.ws(), self.ws()),
+                    4 => format!("not{}all{},{}(color)", self.ws(), self.ows(), self.ows()),
+                    _ => format!("only screen and (min-resolution: {}dppx)", self.number()),
+                };
+                format!("@{}{}{}{}{{{}}}", name, self.ws(), q, self.ows(), self.rule_list(depth + 1))
+            }
+            "supports" => {
+                let c = match self.rng.below(4) {
+                    0 if !self.clean => format!("({}:{}{})", unesc(self.pk(PROPS)), self.ows(), self.value(1)),
+                    0 => format!("({}:{}{})", unesc(self.pk(PROPS)), self.ows(), self.dimension()),
+                    1 => format!("not{}(display: grid)", self.ws()),
+                    2 => format!("selector({})", self.selector_list(1)),
+                    _ => format!("(a: b){}or{}(c: {})", self.ws(), self.ws(), self.dimension()),
+                };
+                format!("@supports{}{}{}{{{}}}", self.ws(), c, self.ows(), self.rule_list(depth + 1))
+            }
+            "layer" => {
+                if self.rng.chance(1, 3) {
+                    format!("@layer{}{}{},{}{};", self.ws(), self.ident(), self.ows(), self.ows(), self.ident())
+                } else if self.rng.chance(1, 4) {
+                    format!("@layer{}{{{}}}", self.ows(), self.rule_list(depth + 1))
+                } else {
+                    format!("@layer{}{}.{}{}{{{}}}", self.ws(), self.ident(), self.ident(), self.ows(), self.rule_list(depth + 1))
+                }
+            }
+            "container" => format!(
+                "@container{}{}{}({}:{}{}){}{{{}}}",
+                self.ws(), self.ident(), self.ws(), "min-width", self.ows(), self.dimension(), self.ows(), self.rule_list(depth + 1)
+            ),
+            "scope" => format!(
+                "@scope{}({}){}to{}({}){}{{{}}}",
+                self.ows(), self.selector_list(1), self.ws(), self.ws(), self.selector_list(1), self.ows(), self.rule_list(depth + 1)
+            ),
+            "starting-style" => format!("@starting-style{}{{{}}}", self.ows(), self.rule_list(depth + 1)),
+            "document" => format!("@document{}url(http://x/){}{{{}}}", self.ws(), self.ows(), self.rule_list(depth + 1)),
+            "keyframes" => {
+                let mut body = self.ows();
+                let n = 1 + self.rng.below(3);
+                for _ in 0..n {
+                    let sel = match self.rng.below(4) {
+                        0 => "from".to_string(),
+                        1 => "to".to_string(),
+                        2 => format!("{}%", self.number()),
+                        _ => format!("0%{},{}100%", self.ows(), self.ows()),
+                    };
+                    body.push_str(&format!("{}{}{{{}}}{}", sel, self.ows(), self.declarations(), self.ows()));
+                }
+                format!("@keyframes{}{}{}{{{}}}", self.ws(), self.ident(), self.ows(), body)
+            }
+            "font-face" => format!("@font-face{}{{{}}}", self.ows(), self.declarations()),
+            "property" => format!("@property{}--{}{}{{{}}}", self.ws(), self.ident(), self.ows(), self.declarations()),
+            "charset" => "@charset \"utf-8\";".to_string(),
+            "namespace" => format!("@namespace{}{}{}url(http://www.w3.org/1999/xhtml);", self.ws(), self.ident(), self.ws()),
+            "page" => format!("@page{}:first{}{{{}}}", self.ws(), self.ows(), self.declarations()),
+            _ => {
+                if self.rng.chance(1, 2) {
+                    let v = if self.clean { self.dimension() } else { self.value(1) };
+                    format!("@foo{}{};", self.ws(), v)
+                } else {
+                    format!("@foo{}({}){}{{{}}}", self.ws(), self.selector_list(1), self.ows(), self.declarations())
+                }
+            }
+        }
+    }
+    pub fn import_path(&mut self) -> String {
+        let pool = [
+            "./a.wxss", "a", "../b/c.wxss", "/abs/p", "a b", "a*/b", "*/", "100%", "%2F", "\u{e9}/\u{540d}.wxss", "\u{1f600}", "q?x=1&y=2#f",
+            "it's", "~user/.x_y-z", "", "a\\\\b", "say \\\"hi\\\"", "tab\\9 x", "\u{80}\u{7ff}\u{800}\u{ffff}\u{10000}\u{10ffff}",
+        ];
+        if self.rng.chance(1, 3) {
+            // random code points (valid scalar values)
+            let n = 1 + self.rng.below(6);
+            let mut s = String::new();
+            for _ in 0..n {
+                let c = match self.rng.below(6) {
+                    0 => 32 + self.rng.below(95) as u32,
+                    1 => 0x80 + self.rng.below(0x780) as u32,
+                    2 => 0x800 + self.rng.below(0xD000) as u32,
+                    3 => 0x10000 + self.rng.below(0x100000) as u32,
+                    4 => [b'*', b'/', b'%', b' ', b'\'', b'~', b'-', b'_', b'.'][self.rng.below(9)] as u32,
+                    _ => 0xE000 + self.rng.below(0x1000) as u32,
+                };
+                if let Some(ch) = char::from_u32(c) {
+                    if ch != '"' && ch != '\\' && ch != '\n' {
+                        s.push(ch);
+                    }
+                }
+            }
+            s
+        } else {
+            unesc(self.pk(&pool))
+        }
+    }
+    fn import_rule(&mut self) -> String {
+        self.feat("import");
+        *self.at_rules.entry("import".to_string()).or_insert(0) += 1;
+        let p = self.import_path();
+        // the pool writes an escaped quote as \" ; everything else is literal
+        let target = match self.rng.below(8) {
+            0 if !self.clean => {
+                self.feat("import-url-fn");
+                format!("url(\"{}\")", p)
+            }
+            1 if !self.clean => {
+                self.feat("import-url-token");
+                "url(foo.wxss)".to_string()
+            }
+            2 if !p.contains('\'') && !p.contains('\\') => format!("'{}'", p),
+            _ => format!("\"{}\"", p),
+        };
+        let mut s = format!("@import{}{}", self.ws(), target);
+        if self.rng.chance(1, 4) {
+            self.feat("import-layer");
+            s.push_str(&format!("{}layer({})", self.ws(), self.ident()));
+        }
+        if self.rng.chance(1, 4) {
+            self.feat("import-supports");
+            let v = if self.clean { self.dimension() } else { self.value(2) };
+            s.push_str(&format!("{}supports({}:{}{})", self.ws(), unesc(self.pk(PROPS)), self.ows(), v));
+        }
+        if self.rng.chance(1, 3) {
+            self.feat("import-media");
+            let q = match self.rng.below(4) {
+                0 => format!("screen{}and{}(min-width:{}{})", self.ws(), self.ws(), self.ows(), self.dimension()),
+                1 => "print".to_string(),
+                2 => format!("(orientation: landscape){},{}print", self.ows(), self.ows()),
+                _ => format!("not{}all", self.ws()),
+            };
+            s.push_str(&format!("{}{}", self.ws(), q));
+        }
+        if !self.clean && self.rng.chance(1, 30) {
+            self.feat("import-bad-tail");
+            s.push_str(" 5");
+        }
+        if self.rng.chance(9, 10) {
+            s.push_str(&self.ows());
+            s.push(';');
+        }
+        s
+    }
+    fn rule_list(&mut self, depth: usize) -> String {
+        let mut s = self.ows();
+        let n = self.rng.below(4);
+        for _ in 0..n {
+            let r = self.rng.below(100) as u64;
+            if r < self.host_pct {
+                s.push_str(&self.host_rule());
+            } else if r < self.host_pct + 22 && depth < 4 {
+                s.push_str(&self.at_rule(depth));
+            } else if r < self.host_pct + 25 {
+                s.push_str(&self.import_rule());
+            } else {
+                s.push_str(&self.qualified_rule());
+            }
+            s.push_str(&self.ows());
+        }
+        s
+    }
+    pub fn stylesheet(&mut self) -> String {
+        let mut s = self.ows();
+        let ni = if self.rng.chance(1, 3) { 1 + self.rng.below(3) } else { 0 };
+        for _ in 0..ni {
+            s.push_str(&self.import_rule());
+            s.push_str(&self.ows());
+        }
+        let n = 1 + self.rng.below(5);
+        for _ in 0..n {
+            if self.rng.chance(1, 40) {
+                self.feat("cdo-cdc-between-rules");
+                s.push_str(if self.rng.chance(1, 2) { "<!--" } else { "-->" });
+                s.push_str(&self.ows());
+            }
+            let r = self.rng.below(100) as u64;
+            if r < self.host_pct {
+                s.push_str(&self.host_rule());
+            } else if r < self.host_pct + 25 {
+                s.push_str(&self.at_rule(0));
+            } else if r < self.host_pct + 29 {
+                s.push_str(&self.import_rule());
+            } else {
+                s.push_str(&self.qualified_rule());
+            }
+            s.push_str(&self.ows());
+        }
+        s
+    }
+    /// malformed stream: character-level mutations of a valid sheet
+    pub fn mutate(&mut self, css: &str) -> String {
+        let mut cs: Vec<char> = css.chars().collect();
+        let special = ['{', '}', '(', ')', '[', ']', ';', ':', ',', '"', '\'', '\\', '/', '*', '@', '#', '.', '\n', ' ', '!', '-', '+', '%', '<', '>', 'u', 'e'];
+        let n = 1 + self.rng.below(3);
+        for _ in 0..n {
+            if cs.is_empty() {
+                break;
+            }
+            let i = self.rng.below(cs.len());
+            match self.rng.below(4) {
+                0 => {
+                    cs.remove(i);
+                }
+                1 => cs.insert(i, *self.rng.pick(&special)),
+                2 => cs[i] = *self.rng.pick(&special),
+                _ => cs.truncate(i),
+            }
+        }
+        cs.into_iter().collect()
+    }
+    pub fn options(&mut self) -> Opts {
+        let prefixes = [None, None, Some(""), Some("p"), Some("my-comp"), Some("\u{524d}\u{7f00}"), Some("1x"), Some("a b")];
+        let signs = [None, None, Some("S"), Some("sig n"), Some("\u{7b7e}")];
+        let ratios = [750f32, 750., 10., 1., 3., 0.1, 375.5];
+        let isigns = [None, Some("IMP"), Some("IMP"), Some("@i")];
+        let his = [None, Some("comp"), Some("c\\\"q"), Some("\u{7ec4}\u{4ef6}")];
+        let host = self.rng.chance(1, 2);
+        Opts {
+            class_prefix: self.rng.pick(&prefixes).map(|x| unesc(x).replace("\\\"", "\"")),
+            class_prefix_sign: self.rng.pick(&signs).map(|x| unesc(x)),
+            rpx_ratio: *self.rng.pick(&ratios),
+            import_sign: self.rng.pick(&isigns).map(|x| x.to_string()),
+            convert_host: host,
+            host_is: if host { self.rng.pick(&his).map(|x| unesc(x).replace("\\\"", "\"")) } else { None },
+        }
+    }
+}
+
+fn opt_class(o: &Opts) -> String {
+    format!(
+        "prefix={} sign={} ratio={} import_sign={} host={} host_is={}",
+        match &o.class_prefix { None => "none", Some(p) if p.is_empty() => "empty", Some(p) if p.is_ascii() => "ascii", _ => "non-ascii" },
+        if o.class_prefix_sign.is_some() { "on" } else { "off" },
+        o.rpx_ratio,
+        if o.import_sign.is_some() { "on" } else { "off" },
+        o.convert_host,
+        if o.host_is.is_some() { "on" } else { "off" },
+    )
+}
+
+/// hand-written seeds replayed first (regression inputs for the known findings and edge cases)
+const SEEDS: &[&str] = &[
+    ".a .b:not(:is(.c .d)) { width: 10rpx; margin: calc(1px + 2rpx) }",
+    "@layer x { .a .b { c: d } }\n@container n (min-width: 1rpx) { .a .b {} }\n@scope (.a) to (.b) { .c .d {} }",
+    "@font-face { unicode-range: U+0025-00FF, u+4??; }",
+    ".a { z-index: 2147483647; w: 9999999px; x: 1.23456789; y: 16777217 }",
+    "@import url(foo.wxss);\n@import url(\"bar.wxss\");\n.a{}",
+    "@import 'a b*/' layer(x) supports(display: grid) screen and (min-width: 1px);",
+    ":host { color: red }\n@media x { :host { a: b } .q{} :host(.a) {} :host .b {} }",
+    ".a { w: min(100% - 20rpx, 50px); h: calc((1px + 2px) * 3) }",
+    "/*x*/ .a /*y*/ .b{color:red}\n@media (min-width: 2rpx) { .c/*k*/.d { x: 1rpx } }",
+    ".\u{1f600}a \u{540d}.b{ --\u{e9}: '\u{1f600}' 1rpx }\n.c{}",
+    ".a{b:c",
+    "@media (a) { .b { c: d",
+    "} .a {} ) ] .b {}",
+    ":host",
+    ":",
+    ":host {",
+    "@import",
+    "@import 'a' layer(x) 5; .a{}",
+    "@import 'a' foo(x); .b{}",
+    "@import 'a' screen { } .c{}",
+    "",
+    "   /* only */  ",
+];
+
+pub fn run(tier: &str, seed: u64, args: &[String], out: &mut Out) {
+    // optional: chunk index and number of chunks (the thorough tier is produced piecewise)
+    let chunk: u64 = args.get(4).and_then(|s| s.parse().ok()).unwrap_or(0);
+    let nchunks: u64 = args.get(5).and_then(|s| s.parse().ok()).unwrap_or(1).max(1);
+    let mut rng = Rng::new(seed ^ 0xC55 ^ (chunk << 32));
+    let n = (if tier == "thorough" { 120_000 } else { 12_000 }) / nchunks as usize;
+    let mut kinds: std::collections::BTreeMap<&'static str, u64> = Default::default();
+    let mut optsets: std::collections::BTreeMap<String, u64> = Default::default();
+    let mut cats: std::collections::BTreeMap<&'static str, u64> = Default::default();
+    let mut depth_hist: std::collections::BTreeMap<usize, u64> = Default::default();
+    let mut at_rules: std::collections::BTreeMap<String, u64> = Default::default();
+    let mut feats: std::collections::BTreeMap<&'static str, u64> = Default::default();
+    let mut total_tokens = 0usize;
+    let mut emit = |out: &mut Out, css: &str, o: &Opts, cat: &'static str| {
+        let st = emit_case(out, css, o, cat);
+        for (k, v) in st.kinds.iter() {
+            *kinds.entry(k).or_insert(0) += v;
+        }
+        *depth_hist.entry(st.max_depth).or_insert(0) += 1;
+        *optsets.entry(opt_class(o)).or_insert(0) += 1;
+        *cats.entry(cat).or_insert(0) += 1;
+        total_tokens += st.n_tokens;
+    };
+    // 1. seeds x a fixed set of option sets
+    let base_opts = [
+        Opts::default(),
+        Opts { class_prefix: Some("p".into()), ..Opts::default() },
+        Opts { class_prefix: Some("p".into()), class_prefix_sign: Some("S".into()), rpx_ratio: 10., import_sign: Some("IMP".into()), convert_host: true, host_is: Some("hi".into()) },
+        Opts { class_prefix: Some("\u{524d}".into()), import_sign: Some("IMP".into()), convert_host: true, ..Opts::default() },
+    ];
+    for s in SEEDS {
+        if chunk != 0 {
+            break;
+        }
+        let css = unesc(s).replace("\\n", "\n");
+        for o in base_opts.iter() {
+            emit(out, &css, o, "seed");
+        }
+    }
+    // 2. generated
+    for i in 0..n {
+        let cat: &'static str = match i % 10 {
+            0..=3 => "general",
+            4 => "numeric",
+            5 => "host",
+            6 => "import",
+            7 => "srcmap",
+            8 => "malformed",
+            _ => "general",
+        };
+        let mut g = Gen::new(&mut rng);
+        g.clean = g.rng.chance(7, 10);
+        match cat {
+            "numeric" => {
+                g.rpx_pct = 55;
+                g.comment_pct = 1;
+            }
+            "host" => g.host_pct = 40,
+            "srcmap" => {
+                g.comment_pct = 15;
+            }
+            _ => {}
+        }
+        let mut css = match cat {
+            "numeric" => {
+                // declaration-heavy sheet
+                let mut s = String::new();
+                let k = 1 + g.rng.below(3);
+                for _ in 0..k {
+                    s.push_str(&format!(".{}{{", g.ident()));
+                    let m = 1 + g.rng.below(5);
+                    for _ in 0..m {
+                        let v = match g.rng.below(5) {
+                            0 => g.number(),
+                            1 => format!("{}%", g.number()),
+                            2 => format!("calc({})", g.calc_sum(1)),
+                            _ => g.dimension(),
+                        };
+                        s.push_str(&format!("{}:{}{};", unesc(g.pk(PROPS)), g.ows(), v));
+                    }
+                    s.push('}');
+                }
+                if g.rng.chance(1, 3) {
+                    s.push_str(&format!("@media (min-width:{}){{.a{{b:{}}}}}", g.dimension(), g.dimension()));
+                }
+                s
+            }
+            "import" => {
+                let mut s = g.ows();
+                let k = 1 + g.rng.below(3);
+                for _ in 0..k {
+                    s.push_str(&g.import_rule());
+                    s.push_str(&g.ows());
+                }
+                if g.rng.chance(1, 2) {
+                    s.push_str(&g.qualified_rule());
+                    if g.rng.chance(1, 2) {
+                        s.push_str(&g.import_rule());
+                    }
+                }
+                s
+            }
+            _ => g.stylesheet(),
+        };
+        if cat == "malformed" {
+            css = g.mutate(&css);
+        }
+        let mut o = g.options();
+        if cat == "import" && g.rng.chance(4, 5) {
+            o.import_sign = Some("IMP".into());
+        }
+        if cat == "host" && g.rng.chance(4, 5) {
+            o.convert_host = true;
+        }
+        for (k, v) in g.at_rules.iter() {
+            *at_rules.entry(k.clone()).or_insert(0) += v;
+        }
+        for (k, v) in g.feats.iter() {
+            *feats.entry(k).or_insert(0) += v;
+        }
+        emit(out, &css, &o, cat);
+    }
+    let stats = serde_json::json!({
+        "token_kinds": kinds, "option_sets": optsets, "categories": cats, "max_depth_hist": depth_hist.iter().map(|(k, v)| (k.to_string(), *v)).collect::<std::collections::BTreeMap<_, _>>(),
+        "at_rules": at_rules, "features": feats, "total_tokens": total_tokens,
+    });
+    out.raw(&format!("#stats\t{}", stats));
+}
+
+/// `cssnum <tier> <seed>`: numeric printing and the rpx formula in isolation, through
+/// cssparser's own Token::to_css (what output.rs calls) on f32 bit patterns
+pub fn run_num(tier: &str, seed: u64, out: &mut Out) {
+    use cssparser::ToCss;
+    let mut rng = Rng::new(seed ^ 0x10);
+    let n = if tier == "thorough" { 400_000 } else { 40_000 };
+    for i in 0..n {
+        let bits: u32 = match i % 4 {
+            0 => (rng.next() as u32) & 0x7fff_ffff,
+            1 => ((rng.below(1_000_000) as f32) / [1f32, 10., 100., 1000., 8., 3.][rng.below(6)]).to_bits(),
+            2 => (rng.next() as i32 as f32).to_bits(),
+            _ => {
+                let m = 1 + rng.below(999_999) as u32;
+                let k = rng.below(12) as i32 - 6;
+                ((m as f64) * 10f64.powi(k)) as f32
+            }
+            .to_bits(),
+        };
+        let bits = if rng.chance(1, 5) { bits | 0x8000_0000 } else { bits };
+        let v = f32::from_bits(bits);
+        if !v.is_finite() {
+            continue;
+        }
+        let has_sign = rng.chance(1, 4) || v.is_sign_negative();
+        let int_value = if v.fract() == 0. && v.abs() < 2e9 && rng.chance(1, 2) { Some(v as i32) } else { None };
+        let t = Token::Number { has_sign, value: v, int_value };
+        let r = catch(move || t.to_css_string());
+        let iv = int_s(&int_value);
+        out.case(&["css_num", "n", if has_sign { "1" } else { "0" }, &iv, &bits.to_string()], &match r {
+            Ok(s) => enc(&s),
+            Err(e) => format!("PANIC {}", e),
+        });
+        if i % 3 == 0 {
+            let t = Token::Percentage { has_sign, unit_value: v, int_value };
+            if (v * 100.).is_finite() {
+                let r = catch(move || t.to_css_string());
+                out.case(&["css_num", "pc", if has_sign { "1" } else { "0" }, &iv, &bits.to_string()], &match r {
+                    Ok(s) => enc(s.trim_end_matches('%')),
+                    Err(e) => format!("PANIC {}", e),
+                });
+            }
+        }
+    }
+}
